@@ -384,6 +384,12 @@ impl Property for C05 {
         }
         let len = case.stream().len();
         case.delivery = gen_delivery(rng, len);
+        if rng.chance(1, 4) {
+            // sinks that accept a few bytes at a time (a short write may end anywhere, also
+            // inside a multi-byte character)
+            case.out = gen_sink_garnish(rng, 300);
+            case.err = gen_sink_garnish(rng, 100);
+        }
         if matches!(family, "mutated" | "alphabet" | "nesting" | "repeated") && rng.chance(1, 4) {
             // the same hostile bytes as a file argument behind the opener seam, in seeded
             // chunks underneath jawk's own BufReader (first chunks of 1-2 bytes included)
